@@ -599,13 +599,39 @@ func paramsNonEmpty(c *an.Ctx, exec *ssa.Function) (bool, string) {
 			return false, name + " uses it other than by a direct call"
 		}
 		args := ci.Common().Args
-		for _, o := range an.Origins(args[len(args)-1]) {
+		isSplit := func(o ssa.Value) (bool, string) {
 			call, ok := o.(*ssa.Call)
 			if !ok || !(an.StdCallee(call, "strings", "Split") || an.StdCallee(call, "bytes", "Split")) {
 				return false, "in " + name + " the parameter list is not the result of strings.Split/bytes.Split (e.g. strings.Fields returns an empty list for a blank line)"
 			}
 			if !nonEmptySep(call.Call.Args[1]) {
 				return false, "in " + name + " the Split separator is not provably non-empty"
+			}
+			return true, ""
+		}
+		allSplit, why := true, ""
+		for _, o := range an.Origins(args[len(args)-1]) {
+			if ok, w := isSplit(o); !ok {
+				allSplit, why = false, w
+			}
+		}
+		if !allSplit {
+			// the list may be merged with a placeholder on paths that never reach the call (a reader helper returning
+			// (nil, err)): judge the value the call receives on each path that reaches it
+			caller := in.Parent()
+			q := &an.PathQ{Fn: caller, StartEntry: true, AllAlias: true, FullOnly: true, Sink: func(x ssa.Instruction, st *an.PathState) bool {
+				if x != in {
+					return false
+				}
+				for _, o := range an.Origins(st.Selected(args[len(args)-1])) {
+					if ok, _ := isSplit(o); !ok {
+						return true
+					}
+				}
+				return false
+			}}
+			if _, found := q.Find(); found {
+				return false, why
 			}
 		}
 	}
